@@ -495,7 +495,10 @@ def judge_render(case, paras):
                 if not collapse:
                     gap = 0      # the preserved space is already on this line
             w_used = width
-            if w_used + gap + extent <= avail - EPS and not (can_break and sep == 'none' and not hyph):
+            next_broken_inside = (can_break and i + 1 < len(seps) and seps[i + 1][0] == 'none' and not seps[i + 1][1]
+                                  and fb is None)
+            if w_used + gap + extent <= avail - EPS and not (can_break and sep == 'none' and not hyph) \
+                    and not next_broken_inside:
                 bad.append(('greedy', 'line %d %r (%s of %s): next unit of extent %s would fit' % (i, t, w_used, avail, extent)))
         # (e) inside the block after alignment
         if simple and width <= avail + EPS:
@@ -573,17 +576,20 @@ def judge_render(case, paras):
 def classify_render(case, clause, detail):
     """signature of a known mechanism (None: unexplained)"""
     can_break = case['wb'] == 'break-all' or case['ow'] in ('anywhere', 'break-word')
+    fit_clauses = ('no-overflow-unless-one-unit', 'greedy', 'line-inside-block', 'text-align', 'justify-fills',
+                   'line-beside-float')
     if case['shy']:
         return 'render-soft-hyphen-paragraph'
     if clause == 'space-dropped-inside-line':
         return 'text-box-trailing-space-dropped-mid-line'
-    if case['leftdeco'] and clause in ('no-overflow-unless-one-unit', 'greedy', 'line-inside-block', 'text-align',
-                                       'justify-fills', 'line-beside-float'):
+    if case['leftdeco'] and clause in fit_clauses:
         return 'inline-start-spacing-ignored-in-line-fitting'
-    if can_break and case['indent'] > case['width'] and clause in ('no-overflow-unless-one-unit', 'greedy'):
+    if can_break and clause in fit_clauses and (case['indent'] > 0 or case['spans'] or OBJ in source_text(case['toks'], 'normal')):
+        # some text box met a negative available width (after an indent, a wide inline-block, paddings)
         return 'sfl-negative-width-no-wrap-when-breaking-inside-words'
+    if (case['nested'] or case['ib_in_span']) and clause in fit_clauses + ('extents-add-up',):
+        return 'nested-inline-boxes-line-breaking'
     return None
-
 
 # ------------------------------------------------------------------------------------------------ check
 
